@@ -248,7 +248,7 @@ def run_range(cx, model_first, PRED):
             if rep[0] == "ok" or int(rep[1]) > lvl:
                 # accepted (or failed only later) although level `lvl` is invalid
                 cls = lenient_class(ty, fd, chain, lvl, base)
-                cx.fail("iff", ("ungrammatical" if cls in ("F51", "F53") else "invalid (not ascending / not narrowing / out of type)") + " range restriction accepted",
+                cx.fail("iff", ("ungrammatical" if cls in ("F75", "F77") else "invalid (not ascending / not narrowing / out of type)") + " range restriction accepted",
                         {"type": ty, "fd": fd, "chain_hex": [hexs(x) for x in chain], "level": lvl, "reply": rep, "finding_class": cls})
 
     # ---- end to end: membership at the part edges, derived ⊆ base on the implementation's own verdicts ---------------
@@ -302,7 +302,7 @@ def run_range(cx, model_first, PRED):
             continue
         for k, v in enumerate(vals):
             if rep[1][k] == "1" and prep[1][k] != "1":
-                cls = "F51" if (ref_parse(ty, fd, chain[-1]) is None and juxtaposed(chain[-1])) else None
+                cls = "F75" if (ref_parse(ty, fd, chain[-1]) is None and juxtaposed(chain[-1])) else None
                 cx.fail("iff", "derived type accepts a value its base type rejects",
                         {"type": ty, "fd": fd, "chain_hex": [hexs(x) for x in chain], "value": v, "finding_class": cls})
                 break
@@ -312,7 +312,7 @@ TOKEN_RE = re.compile(rb"[ \t\n\r\x0b\x0c]+|min|max|\.\.|\||[+-]?[0-9]*(?:\.[0-9
 
 
 def juxtaposed(s):
-    """two boundaries (number / min / max) follow each other with only blanks in between: the F51 shape"""
+    """two boundaries (number / min / max) follow each other with only blanks in between: the F75 shape"""
     toks, i = [], 0
     while i < len(s):
         m = TOKEN_RE.match(s, i)
@@ -331,7 +331,7 @@ def _jux(toks):
 
 
 def strict_class(ty, fd, chain):
-    """valid restriction rejected: known (F52) only when `min` is used anywhere but as the very first boundary or `max`
+    """valid restriction rejected: known (F76) only when `min` is used anywhere but as the very first boundary or `max`
     anywhere but as the very last one (libyang's parser accepts the keywords only there)"""
     for s in chain:
         a = ref_parse(ty, fd, s)
@@ -343,16 +343,16 @@ def strict_class(ty, fd, chain):
         for part_text in re.split(OPTSEP + rb"\|" + OPTSEP, s):
             toks += re.split(OPTSEP + rb"\.\." + OPTSEP, part_text)
         if b"min" in toks[1:] or b"max" in toks[:-1]:
-            return "F52"
+            return "F76"
     return None
 
 
 def lenient_class(ty, fd, chain, lvl, base):
-    """invalid restriction accepted: F51 if the argument is not in the RFC grammar at all; F52 for the one grammatical
+    """invalid restriction accepted: F75 if the argument is not in the RFC grammar at all; F76 for the one grammatical
     shape `...N|max` with N equal to the maximum (stand-alone `max` part compared non-strictly: duplicate part)"""
     a = ref_parse(ty, fd, chain[lvl])
     if a is None:
-        return "F51" if juxtaposed(chain[lvl]) else "F53"
+        return "F75" if juxtaposed(chain[lvl]) else "F77"
     if len(a) >= 2 and a[-1] == ("max", "max") and ref_eval(ty, base, a[:-1]) is not None:
-        return "F52"
+        return "F76"
     return None
